@@ -65,6 +65,7 @@ def h_header(ctx, vcf, twin=False):
         ctx.holds("primary header unpack returns the same values", e is None and hdr_fields_eq(u, h), exc_name(e))
         if e is None:
             ctx.holds("primary header repack identical", u.pack() == raw)
+    pack_hands_out_fresh_buffers(ctx, hd.pack, ref)
     e, u = call(TruncatedPrimaryHeader.unpack, raw)
     ctx.holds("truncated decoder refuses a non-truncated header with UslpTypeMissmatch", isinstance(e, ud.UslpTypeMissmatch), exc_name(e))
     ctx.holds("determine_header_type", determine_header_type(raw) == HeaderType.NON_TRUNCATED)
@@ -195,6 +196,15 @@ def h_frame(ctx, rule, kind, iz, fecf, ocf, vcf, n, twin=False):
         (u.insert_zone == info["iz"]) if iz else (not u.insert_zone), (u.op_ctrl_field == info["ocf"]) if ocf else (not u.op_ctrl_field),
         (u.fecf == info["fecf"]) if fecf else (not u.fecf), u.len() == len(raw)))
     ctx.holds("repack identical", u.pack(truncated=(kind == "truncated"), frame_type=ftype) == raw)
+    pack_hands_out_fresh_buffers(ctx, lambda: fr.pack(truncated=(kind == "truncated"), frame_type=ftype), ctx.bytes_of(ref))
+    o_hdr = PrimaryHeader(0xABCD, 1, 0x3F, 0xF, 0, 1, 1, False, 2, 0xBEEF)
+    o_fr = TransferFrame(o_hdr, TransferFrameDataField(7, 5, b"\x01\x02\x03\x04\x05"), None, None, None)
+    o_fr.set_frame_len_in_header()
+    o_raw = bytes(o_fr.pack(frame_type=FrameType.VARIABLE))
+    earlier_result_survives(ctx, lambda: sym_and(hdr_ok, u.tfdf.tfdz == info["tfdz"], u.tfdf.uslp_ident == info["upid"], u.len() == len(raw),
+                                                 u.pack(truncated=(kind == "truncated"), frame_type=ftype) == raw),
+                            [lambda: TransferFrame.unpack(o_raw, FrameType.VARIABLE, VarFrameProperties(False, False, 0)),
+                             lambda: PrimaryHeader.unpack(o_raw), lambda: o_fr.pack(frame_type=FrameType.VARIABLE)])
     if twin:
         ctx.holds("twin", raw != ctx.bytes_of(ref))
 
